@@ -208,6 +208,17 @@ def check_C01(chk):
     c01c(chk)
     c01d(chk)
     c01e(chk)
+    # shared clauses: which genotypes count (decided for C08), how the samples file names populations (C09), per-record state (C11)
+    import rules_geno as RG_
+    def _geno():
+        g_ = RG_.GenoFrom(chk)
+        if g_.ok:
+            RG_.c08a(chk, g_)
+            RG_.c08b(chk, g_)
+            RG_.c08e(chk, g_)
+    chk.borrow(_geno, "C01.f", 5)
+    chk.borrow(lambda: RG_.c09d(chk), "C01.g", 5)
+    chk.borrow(lambda: (c11a(chk), c11b(chk)), "C01.h", 4)
     chk.floor("C01.a", 3)
     chk.floor("C01.b", 4)
     chk.floor("C01.c", 3)
@@ -706,6 +717,14 @@ def check_C02(chk):
     c02e(chk)
     c02f(chk)
     c02g(chk)
+    # shared clause: which chromosomes are `called` and how many are ALT is the genotype classification decided for C08
+    import rules_geno as RG_
+    def _geno():
+        g_ = RG_.GenoFrom(chk)
+        if g_.ok:
+            RG_.c08a(chk, g_)
+            RG_.c08b(chk, g_)
+    chk.borrow(_geno, "C02.h", 4)
     for r, n in (("C02.a", 10), ("C02.b", 10), ("C02.c", 3), ("C02.d", 2), ("C02.e", 1), ("C02.f", 1), ("C02.g", 7)):
         chk.floor(r, n)
 
@@ -1156,6 +1175,20 @@ def c02g(chk):
             else:
                 why = "argument of ln_gamma is not `x + 1.0` (n! = Gamma(n + 1)): %s" % (rvstr(d[3]) if d and d[0] == "assign" else "?")
         chk.ob("C02.g", "ln_factorial/fallback=ln_gamma(x+1)", ok, lf.loc(), "beyond the table ln n! must be ln Gamma(n + 1): " + why)
+        # ... and those are the only two sources of its value: ln_factorial computes nothing itself (an asymptotic formula for large arguments,
+        # however accurate in the logarithm, is exponentiated by the pmf and does not cancel against the exact values below its threshold)
+        arith = []
+        fcalls = []
+        for c in [lf] + prog.closures_of(lf.path):
+            for b_, i_, p_, rv_, s_ in c.assigns():
+                if rv_["k"] == "binop" and rv_["op"] in ("Add", "Sub", "Mul", "Div", "Rem") and ("f64" in (rv_.get("lty") or "") or "f64" in c.local_ty(p_[0])):
+                    arith.append("%s at %s" % (rv_["op"], c.loc(b_)))
+            for b_, t_ in c.calls():
+                nm_ = callee_name(t_["callee"])
+                if nm_.startswith(("std::f64::<impl f64>::", "core::f64::<impl f64>::", "core::num::<impl f64>::")):
+                    fcalls.append(nm_.split("::")[-1])
+        chk.ob("C02.g", "ln_factorial/value-from-table-or-ln_gamma-only", len(arith) <= 1 and sorted(set(fcalls)) in ([], ["ln"]) and len(fcalls) <= 1, lf.loc(),
+               "f64 arithmetic in ln_factorial: %s (expected only the `x + 1.0` of the gamma argument); f64 functions applied: %s (expected at most one ln of the table entry)" % (arith or "none", fcalls or "none"))
         # the table lookup uses x itself as index: table.get(x as usize), or table[x as usize] (its bounds check is a C17 site)
         gets = [t for b, t in lf.calls() if callee_is(t["callee"], "core::slice::<impl [T]>::get")]
         ok = False
@@ -1685,6 +1718,12 @@ def check_C10(chk):
     exit_status(chk, "C10.e")
     import rules_io
     rules_io.reader_outcomes(chk, "C10.e")
+    # shared clauses: every selected sample of a record is examined before the record is classified (a ploidy error must not be masked by an
+    # earlier skipped sample: C01/C08), and the projected weights sum to one record (the hypergeometric helpers of C02)
+    rs_ = ReadSite(chk)
+    if rs_.ok:
+        sample_loop_exits(chk, rs_, "C10.f")
+    chk.borrow(lambda: c02g(chk), "C10.g", 7)
     for r, n in (("C10.a", 10), ("C10.b", 7), ("C10.c", 2), ("C10.d", 5), ("C10.e", 6)):
         chk.floor(r, n)
 
@@ -1944,6 +1983,37 @@ def c10c(chk):
         if "field:skipped" in srcs and "field:sites" in srcs:
             good = True
     chk.ob("C10.c", "summarize_skipped/reports-skipped-and-sites", good, s.loc(), "the summary must display self.skipped and self.sites")
+    # ... for every run that skipped anything: the line is reached exactly when skipped >= 1 (it is where a user reads how many records are
+    # missing from the mass; `> 1` leaves one record unaccounted for)
+    verdicts = []
+    for fb, pieces, phs, t in an.format_calls(s):
+        if not {"field:skipped", "field:sites"} <= fmt_arg_sources(s, t):
+            continue
+        for sb, stt in s.switches():
+            sj = an.switch_subject(s, sb)
+            dd = s.single_def(sj["root"]) if sj["kind"] == "value" and sj["root"] is not None else None
+            if not (dd and dd[0] == "assign" and dd[3]["k"] == "binop" and dd[3]["op"] in ("Gt", "Ge", "Lt", "Le", "Eq", "Ne")):
+                continue
+            lc, rc = an._const_int_of(s, dd[3]["l"]), an._const_int_of(s, dd[3]["r"])
+            if (lc is None) == (rc is None):
+                continue
+            var = dd[3]["r"] if lc is not None else dd[3]["l"]
+            sl_, info_ = s.slice_locals(var)
+            if (RUNNER_STRUCT, "skipped") not in info_["fields"]:
+                continue
+            t_true, t_false = stt["otherwise"], an.edge_target(stt, 0)
+            on_true = an.dominated_by_edge(s, sb, t_true, fb)
+            on_false = an.dominated_by_edge(s, sb, t_false, fb)
+            if on_true == on_false:
+                continue
+            import operator as _op
+            fn_ = {"Gt": _op.gt, "Ge": _op.ge, "Lt": _op.lt, "Le": _op.le, "Eq": _op.eq, "Ne": _op.ne}[dd[3]["op"]]
+            def holds(v):
+                r_ = fn_(lc, v) if lc is not None else fn_(v, rc)
+                return r_ if on_true else not r_
+            verdicts.append(all(holds(v) == (v >= 1) for v in range(0, 6)))
+    chk.ob("C10.c", "summarize_skipped/printed-iff-skipped>=1", verdicts == [True], s.loc(),
+           "the summary line is reached exactly when self.skipped >= 1 (tests of self.skipped against a constant that guard it: %s)" % (verdicts or "none found"))
 
 
 def no_partial_output(chk, rule, fn_path, producer, writers):
